@@ -12,6 +12,10 @@ from fractions import Fraction as Fr
 
 import numpy as np
 
+# imported at module level on purpose: the runner imports this module before forking its workers, so the
+# (slow) cardillo import happens once per run instead of once per worker / re-execution
+import cardillo.rods.discretization  # noqa: F401  (resolved through PYTHONPATH = $VERIF_REPO)
+
 from vp.core.alphabet import weyl
 
 ID = "C13"
@@ -414,9 +418,9 @@ def check_knot(case):
     # ---- Kronecker property at the element nodes (float node positions as used by the library's own constructor)
     for e in range(nel):
         a, b = bounds[e], bounds[e + 1]
-        lb = LagrangeBasis(p, interval=np.array([a, b]))
         nodes = [a + k * (b - a) / p for k in range(p)] + [b]
         try:
+            lb = LagrangeBasis(p, interval=np.array([a, b]))
             Nn = np.asarray(lb(nodes))
             e_k = float(np.max(np.abs(Nn - np.eye(p + 1))))
         except Exception as ex:  # noqa
@@ -466,7 +470,12 @@ def check_knot(case):
                         continue
                     ncmp += _cmp(f"Mesh1D[{basis}].eval_basis", got, REF[(x, e_ref)], 1, fails, stats, dict(info, xi=x, el=el_arg, element=e_ref))
             # global Kronecker property: basis function of global node j at node i (through element lookup + elDOF)
-            msgk = _global_kronecker(m, kv, basis, p, nel, bounds)
+            try:
+                msgk = _global_kronecker(m, kv, basis, p, nel, bounds)
+            except Exception as ex:  # noqa
+                msgk = None
+                if nbad == 0:  # otherwise the root cause (element lookup) is already reported
+                    msgk = f"raises {ex!r}"
             ncmp += 1
             if msgk:
                 fails.append({"site": f"Mesh1D[{basis}] nodal basis through elDOF vs Kronecker delta at global nodes", "msg": msgk, "data": info})
